@@ -98,12 +98,22 @@ class C20(Prop):
     pid = "C20"
     title = "string enumerator"
     thm_modules = ["PeliteModel.Thm.C20"]
-    gens = [gen_pure.gen_strings]
+    gens = [gen_pure.gen_strings, gen_pure.gen_strings_hist]
 
     def oracle(self, op, impl, model, spec):
         if spec_field(spec, "hyp") != "1":
             return None
         s = spec_field(spec, "spec")
+        if op.startswith("strings_hist"):
+            # the history on the real enumerator against the same calls on the list of the qualifying runs
+            m = re.match(r"ok (\S*) fused=(\d)$", impl)
+            if not m:
+                return "history did not answer: %s" % impl[:200]
+            if m.group(1) != s:
+                return "enumerator history %s differs from the sequence of the qualifying runs %s" % (m.group(1)[:300], (s or "")[:300])
+            if m.group(2) != "1":
+                return "iterator not fused"
+            return None
         m = re.match(r"ok (\[\S*\]) fused=(\d)", impl)
         if not m:
             return "enumerator did not return a list: %s" % impl[:200]
@@ -121,12 +131,36 @@ class C14(Prop):
     pid = "C14"
     title = "base relocations"
     thm_modules = ["PeliteModel.Thm.C14"]
-    gens = [gen_pure.gen_relocs_raw, gen_pure.gen_relocs_build]
+    gens = [gen_pure.gen_relocs_raw, gen_pure.gen_relocs_rawat, gen_pure.gen_relocs_hist, gen_pure.gen_relocs_build]
 
     def oracle(self, op, impl, model, spec):
-        if op.startswith("relocs_raw"):
+        if op.startswith("relocs_raw"):          # relocs_raw and relocs_rawat
             if "foreach_same=0" in impl or "fold_same=0" in impl:
                 return "block iterator and for_each/fold disagree: %s" % impl[:300]
+            w = op.split(" ")
+            if w[0] == "relocs_rawat":
+                # "all 4-byte-aligned byte strings as directories": parse accepts iff the address is a multiple of 4
+                aligned = int(w[1], 0) % 4 == 0
+                if aligned and not impl.startswith("ok "):
+                    return "a 4-aligned directory was not accepted: %s" % impl[:200]
+                if not aligned and impl != "err Misaligned":
+                    return "a misaligned directory was not rejected with Misaligned: %s" % impl[:200]
+            if spec_field(spec, "hyp") == "1" and impl.startswith("ok "):
+                # well-formed data: the reported entries are what the format-side decoder reads
+                m = re.search(r"flat=(\[\S*\])", impl)
+                want = spec_field(spec, "spec")
+                if not m or m.group(1) != want:
+                    return "entries reported %s differ from the PE-format decoding %s" % (m.group(1)[:300] if m else impl[:200], (want or "")[:300])
+        if op.startswith("relocs_hist") and impl.startswith("ok "):
+            # the history on the real iterator against the same calls on the plain list of blocks
+            want = spec_field(spec, "spec")
+            m = re.match(r"ok (\S*) fused=(\d)$", impl)
+            if not m:
+                return "history did not answer: %s" % impl[:200]
+            if want is not None and m.group(1) != want:
+                return "iterator history %s differs from the sequence of its blocks %s" % (m.group(1)[:300], want[:300])
+            if m.group(2) != "1":
+                return "block iterator not fused"
         if op.startswith("relocs_build") and spec_field(spec, "hyp") == "1":
             m = re.search(r"flat=(\[\S*\])", impl)
             want = spec_field(spec, "input")
@@ -153,7 +187,7 @@ class C07(Prop):
     named_errors = {"PeMagic"}                  # "rejected with the dedicated wrong-format error"
     pid = "C07"
     title = "headers"
-    thm_modules = ["PeliteModel.Thm.C07", "PeliteModel.Thm.C07Checksum"]
+    thm_modules = ["PeliteModel.Thm.C07", "PeliteModel.Thm.C07Checksum", "PeliteModel.Thm.C07Layout"]
     gens = [gen_img.gen_c07_corpus, gen_img.gen_c07, gen_img.gen_c07_boundaries]
 
     def oracle(self, op, impl, model, spec):
@@ -172,7 +206,7 @@ class C05(Prop):
     named_errors = {"Null"}                     # "a zero address always yields the null error"; read vs slice: see oracle
     pid = "C05"
     title = "VA / RVA / typed reads"
-    thm_modules = ["PeliteModel.Thm.C05"]
+    thm_modules = ["PeliteModel.Thm.C05", "PeliteModel.Thm.C05Complete"]
     gens = [gen_img.gen_c05]
 
     def begin_case(self, case):
@@ -203,8 +237,165 @@ class C06(Prop):
     named_errors = set()
     pid = "C06"
     title = "file <-> view conversion"
-    thm_modules = ["PeliteModel.Thm.C06", "PeliteModel.Thm.C06RoundTrip"]
+    thm_modules = ["PeliteModel.Thm.C06", "PeliteModel.Thm.C06RoundTrip", "PeliteModel.Thm.C06Slice"]
     gens = [gen_img.gen_c06]
+
+    # "every RVA whose bytes are stored in the file and mapped reads identically through a file view and
+    # through a view over the converted buffer": gen_c06 issues the same typed reads on the file (phase 0),
+    # after `img_to_view` on the view over the converted buffer (phase 1) and after `img_to_file` on the
+    # file converted back (phase 2).  The oracle remembers the phase-0 answers of the implementation and
+    # compares the VALUES (copied integers / bytes, string and array lengths) of the later phases with
+    # them — not the `off:len` references, which legitimately differ (file offset vs rva).  It only
+    # judges requests that lie in stored-and-mapped bytes of the first containing section of a
+    # `LoadableFile` image (the hypotheses of C06_same_slice / C06_cstr_same / C06_sentinel_same /
+    # C06_round_trip), computed here from the bytes of the `img` line, independently of the model.
+    TYPE_SIZE = {"u8": 1, "u16": 2, "u32": 4, "u64": 8}
+
+    @staticmethod
+    def _layout(data):
+        """header fields and section table of a file the way the PE format lays them out; None if the
+        structures do not fit the buffer"""
+        def u16(o): return int.from_bytes(data[o:o + 2], "little")
+        def u32(o): return int.from_bytes(data[o:o + 4], "little")
+        if len(data) < 64:
+            return None
+        e = u32(60)
+        if e + 24 + 2 > len(data):
+            return None
+        magic = u16(e + 24)
+        if magic not in (0x10b, 0x20b):
+            return None
+        nt_size = 120 if magic == 0x10b else 136
+        if e + nt_size > len(data):
+            return None
+        opt = e + 24
+        nsec, soh_opt = u16(e + 6), u16(e + 20)
+        lay = {"soi": u32(opt + 56), "soh": u32(opt + 60), "len": len(data), "nt_end": e + nt_size}
+        if magic == 0x10b:
+            lay["image_base"], lay["ndirs"] = u32(opt + 28), min(u32(opt + 92), 16)
+        else:
+            lay["image_base"], lay["ndirs"] = u32(opt + 24) | (u32(opt + 28) << 32), min(u32(opt + 108), 16)
+        tab = opt + soh_opt
+        lay["sec_end"] = tab + 40 * nsec
+        if lay["sec_end"] > len(data):
+            return None
+        lay["secs"] = [dict(vs=u32(o + 8), va=u32(o + 12), rs=u32(o + 16), prd=u32(o + 20))
+                       for o in (tab + 40 * i for i in range(nsec))]
+        return lay
+
+    @staticmethod
+    def _loadable_file(lay):
+        """`LoadableFile` of Spec/Convert.lean"""
+        U = 1 << 32
+        secs = lay["secs"]
+        for s in secs:
+            if not (s["va"] + s["vs"] < U and s["prd"] + s["rs"] < U and s["va"] + s["vs"] <= lay["soi"]
+                    and s["prd"] + s["rs"] <= lay["len"] and lay["soh"] <= s["va"] and lay["soh"] <= s["prd"]):
+                return False
+        for i, a in enumerate(secs):
+            for b in secs[i + 1:]:
+                if not (a["va"] + a["vs"] <= b["va"] or b["va"] + b["vs"] <= a["va"]):
+                    return False
+                if not (a["prd"] + a["rs"] <= b["prd"] or b["prd"] + b["rs"] <= a["prd"]):
+                    return False
+        return lay["sec_end"] <= lay["soh"] and lay["nt_end"] + 8 * lay["ndirs"] <= lay["soh"] <= lay["soi"]
+
+    def _stored_and_mapped(self, rva, n):
+        """the request [rva, rva+n) lies in the stored-and-mapped bytes of the first section containing rva"""
+        if not (0 < rva < (1 << 32)):
+            return False
+        for s in self.lay["secs"]:
+            if s["va"] <= rva < ((s["va"] + max(s["vs"], s["rs"])) & 0xFFFFFFFF):      # `firstV`
+                return rva - s["va"] + n <= min(s["vs"], s["rs"])
+        return False
+
+    def begin_case(self, case):
+        self.phase = 0            # 0 = the file, 1 = view over to_view(file), 2 = file from to_file(view); None = not comparable
+        self.first = {}           # phase-0 answers of the implementation by request
+        self.lay = None
+        self.view_ok = False
+        if case and case[0].startswith("img "):
+            w = case[0].split(" ")
+            try:
+                lay = self._layout(bytes.fromhex(w[3]) if len(w) > 3 and w[3] != "-" else b"")
+            except ValueError:
+                lay = None
+            if lay and self._loadable_file(lay):
+                self.lay = lay
+
+    def _request(self, w):
+        """(key, rva, size of one element or of the copy, family) of a typed read line, else None"""
+        fam = w[0]
+        try:
+            if fam in ("derva_copy", "deref_copy") and len(w) == 4:
+                x, n = int(w[3], 0), self.TYPE_SIZE[w[2]]
+            elif fam in ("derva_into", "deref_into") and len(w) == 4:
+                x, n = int(w[3], 0), int(w[2], 0)
+            elif fam in ("derva_cstr", "deref_cstr") and len(w) == 3:
+                x, n = int(w[2], 0), 1
+            elif fam in ("derva_slice_s", "deref_slice_s") and len(w) == 5:
+                x, n = int(w[3], 0), self.TYPE_SIZE[w[2]]
+            else:
+                return None
+        except (ValueError, KeyError):
+            return None
+        rva = x - self.lay["image_base"] if fam.startswith("deref") else x
+        return (fam,) + tuple(w[2:]), rva, n, fam[6:]
+
+    def oracle(self, op, impl, model, spec):
+        w = op.split(" ")
+        if w[0] == "img":
+            self.phase = None
+            return None
+        if w[0] == "img_to_view":
+            self.phase = 1 if (self.phase == 0 and impl.startswith("ok ")) else None
+            return None
+        if w[0] == "img_to_file":
+            self.phase = 2 if (self.phase == 1 and impl.startswith("ok ")) else None
+            return None
+        if self.lay is None or self.phase is None:
+            return None
+        if w[0] == "from_bytes" and self.phase == 1:
+            self.view_ok = impl.startswith("ok")
+            if not self.view_ok:
+                # C06_to_view_accepted: the converted buffer of a LoadableFile image is accepted (it is placed 16-aligned)
+                return "the buffer produced by to_view from a loadable file is rejected by PeView::from_bytes: %s" % impl[:100]
+            return None
+        rq = self._request(w)
+        if rq is None:
+            return None
+        key, rva, n, kind = rq
+        if self.phase == 0:
+            self.first[key] = impl
+            return None
+        a0 = self.first.get(key)
+        if a0 is None or not a0.startswith("ok "):
+            return None
+        where = "the view over the converted buffer" if self.phase == 1 else "the file converted back"
+        if kind in ("copy", "into"):
+            if not self._stored_and_mapped(rva, n):
+                return None
+            if impl.startswith("ok "):
+                if impl != a0:
+                    return "stored-and-mapped bytes at rva 0x%x read as %s through the file but as %s through %s" % (rva, a0[:80], impl[:80], where)
+            elif self.phase == 1 and self.view_ok and klass(impl) == "err":
+                return "stored-and-mapped bytes at rva 0x%x read as %s through the file but %s answers %s" % (rva, a0[:80], where, impl[:80])
+            return None
+        # strings and sentinel-terminated arrays: `ok off:len`; the whole object plus its terminator must be stored and mapped
+        m0 = re.match(r"ok (\d+):(\d+)", a0)
+        if not m0:
+            return None
+        ln = int(m0.group(2))
+        if not self._stored_and_mapped(rva, ln + n):
+            return None
+        m1 = re.match(r"ok (\d+):(\d+)", impl)
+        if m1:
+            if int(m1.group(2)) != ln:
+                return "the %s at rva 0x%x has length %d through the file but %s through %s" % (
+                    "C string" if kind == "cstr" else "sentinel-terminated array", rva, ln, m1.group(2), where)
+            if self.phase == 1 and int(m1.group(1)) != rva:
+                return "the view over the converted buffer answers the read at rva 0x%x with offset %s" % (rva, m1.group(1))
+        return None
 
     def nontrivial(self, op, impl):
         return impl.startswith("ok ")
